@@ -600,8 +600,11 @@ func (this *Writer) Close() error {
 			}
 
 			// Write end block of size 0
-			this.obs.WriteBits(0, 5) // write length-3 (5 bits max)
-			this.obs.WriteBits(0, 3)
+			if err := this.writeEndMarker(); err != nil {
+				atomic.StoreInt32(&this.closing, 0)
+				return err
+			}
+
 			atomic.StoreInt32(&this.finalized, 1)
 		}
 	}
@@ -628,7 +631,34 @@ func (this *Writer) Close() error {
 	return nil
 }
 
+// The bitstream panics when the underlying writer fails (the end marker may trigger a flush).
+func (this *Writer) writeEndMarker() (err error) {
+	defer func() {
+		if r := recover(); r != nil {
+			// The state of the bitstream is unknown: the stream cannot be completed
+			atomic.StoreInt32(&this.blockID, _CANCEL_TASKS_ID)
+
+			switch v := r.(type) {
+			case error:
+				err = &IOError{msg: v.Error(), code: kanzi.ERR_WRITE_FILE}
+			default:
+				err = &IOError{msg: fmt.Sprint(v), code: kanzi.ERR_WRITE_FILE}
+			}
+		}
+	}()
+
+	this.obs.WriteBits(0, 5) // write length-3 (5 bits max)
+	this.obs.WriteBits(0, 3)
+	return nil
+}
+
 func (this *Writer) processBlock() error {
+	if atomic.LoadInt32(&this.blockID) == _CANCEL_TASKS_ID {
+		// A previous block could not be written: part of the data has been lost and
+		// the state of the bitstream is unknown. Never report success after that.
+		return &IOError{msg: "Stream failed: a previous block could not be written", code: kanzi.ERR_WRITE_FILE}
+	}
+
 	if err := this.writeHeader(); err != nil {
 		return err
 	}
